@@ -243,6 +243,31 @@ theorem filter_split_at (log : List Event) (hs : Sorted log) (p : Event → Bool
       · simp [hp, hle, hgt, hnone, hall]
       · simp [hp, hnone, hall]
 
+/-- the events a snapshot-based rebuild still has to apply, and the full list, on a sorted log -/
+theorem upTo_split (log : List Event) (hs : Sorted log) (k : Nat) (asOf : Option Nat)
+    (hu : ∀ n, asOf = some n → k ≤ n) :
+    upTo (eventsAfter log 0) asOf
+      = upTo (eventsAfter log 0) (some k) ++ upTo (eventsAfter log k) asOf := by
+  cases asOf with
+  | none =>
+    simp only [upTo, eventsAfter, List.filter_filter]
+    have h := filter_split_at log hs (fun e => decide (e.seq > 0)) k
+    rw [h]
+    congr 1
+    · apply List.filter_congr; intro e _; simp [Bool.and_comm]
+    · apply List.filter_congr; intro e _
+      by_cases h1 : k < e.seq <;> simp [h1]; omega
+  | some n =>
+    have hkn : k ≤ n := hu n rfl
+    simp only [upTo, eventsAfter, List.filter_filter]
+    have h := filter_split_at log hs (fun e => decide (e.seq ≤ n) && decide (e.seq > 0)) k
+    rw [h]
+    congr 1
+    · apply List.filter_congr; intro e _
+      by_cases h1 : e.seq ≤ k <;> by_cases h2 : 0 < e.seq <;> simp [h1, h2] <;> omega
+    · apply List.filter_congr; intro e _
+      by_cases h1 : k < e.seq <;> by_cases h2 : e.seq ≤ n <;> simp [h1, h2] <;> omega
+
 /-- `sortedStrict` (what the driver checks) is `Sorted` -/
 theorem sorted_of_sortedStrict : ∀ (log : List Event), sortedStrict log = true → Sorted log
   | [], _ => List.Pairwise.nil
